@@ -979,22 +979,30 @@ def replay(record):
         call = record["call"]
         out = {"call": call, "expected": record["expected"]}
         n = len(inp[0])
+        pos = None
         if kinds and record.get("query") is not None:
             # the query point in an array of the recorded kind, with its neighbours in the batch
-            # (the memory around a point matters for defects in the handling of strides)
+            # (the memory around a point matters for defects in the handling of strides); a
+            # batched call is repeated as a batched call and the row of the point is compared
             pos, rows = record.get("window") or [0, [record["query"]]]
-            qk = make_array(scaled(rows, scale, kinds[1]), kinds[1])[0][pos]
+            qk = make_array(scaled(rows, scale, kinds[1]), kinds[1])[0]
+            if call == "get_atoms_single":
+                qk, pos = qk[pos], None
         else:
             qk = None
+
+        def row(res):
+            res = np.asarray(res)
+            return sorted(set(v for v in (res if pos is None else res[pos]).tolist() if v != -1))
+
         if call in ("get_atoms", "get_atoms_single") and record.get("query") is not None:
             q = qk if qk is not None else np.array(record["query"], dtype=dt) / scale
-            got = cl.get_atoms(q, radius_of(record["rho"], scale))
-            got = sorted(set(v for v in got.tolist() if v != -1))
+            got = row(cl.get_atoms(q, radius_of(record["rho"], scale)))
             out.update(observed=got, mismatch=got != record["expected"])
             return out
         if call == "get_atoms_in_cells" and record.get("query") is not None:
             q = qk if qk is not None else np.array(record["query"], dtype=dt) / scale
-            got = sorted(set(v for v in cl.get_atoms_in_cells(q, record["c"]).tolist() if v != -1))
+            got = row(cl.get_atoms_in_cells(q, record["c"]))
             out.update(observed=got, mismatch=not set(record["expected"]) <= set(got))
             return out
         if call == "create_adjacency_matrix":
@@ -1030,7 +1038,16 @@ def replay(record):
         cl, dt = build([first["atoms"], first["cs"], [], first["sel"]], scale, first["variant"], kinds=first["kinds"], form=first["form"])
         if e["op"] == "get_atoms":
             j = max(record["position"] - 1, 0)
-            got = cl.get_atoms(np.array(e["q"][j], dtype=dt) / scale, radius_of(e["rho"][j], scale))
+            # the batch again, in arrays of the recorded kinds (first use of fresh argument objects)
+            qa = make_array(scaled(e["q"], scale, e.get("qk", "f8")), e.get("qk", "f8"))[0]
+            if e.get("multi"):
+                rk = e.get("rk", "f8")
+                ra = make_array([int(radius_of(r, scale)) if rk[0] == "i" else radius_of(r, scale) for r in e["rho"]], rk)[0]
+                got = np.asarray(cl.get_atoms(qa, ra))[j]
+            elif e.get("single"):
+                got = np.asarray(cl.get_atoms(qa[0], radius_of(e["rho"][0], scale)))
+            else:
+                got = np.asarray(cl.get_atoms(qa, radius_of(e["rho"][0], scale)))[j]
             got = sorted(set(v for v in got.tolist() if v != -1))
             return {"observed": got, "expected": record["expected"], "mismatch": got != record["expected"]}
         if e["op"] == "adjacency":
